@@ -106,7 +106,8 @@ def run(ctx: Ctx) -> None:
     syncapi.run(ctx, 'C17')
     rng = random.Random(ctx.seed * 7919 + 17)
     # (the backlog must outlast any bounded wait a close might be given: 6 callbacks of 2.3 s, thorough also 8 of 2.6 s)
-    sync = [{'id': 'c17-sync-0', 'sync': {'n': 6, 'cb': 2.3}}, {'id': 'c17-sync-fl', 'sync': {'n': 0, 'cb': 0, 'mode': 'foreign-loop'}}] + (
+    sync = [{'id': 'c17-sync-0', 'sync': {'n': 6, 'cb': 2.3}}, {'id': 'c17-sync-fl', 'sync': {'n': 0, 'cb': 0, 'mode': 'foreign-loop'}},
+            {'id': 'c17-sync-ac', 'sync': {'n': 4, 'cb': 0.5, 'mode': 'async-close'}}] + (
         [{'id': 'c17-sync-1', 'sync': {'n': 8, 'cb': 2.6}}] if ctx.thorough else [])
     # what is in flight when the application calls in: Lifecycle.tla explored by TLC (the unguarded configurations reproduce
     # findings D20 and D27 in the design), every behaviour of its replay configuration run on a real instance
